@@ -567,7 +567,28 @@ pub fn history_check(
     announce: &mut dyn FnMut(&str, usize, Op, usize),
 ) {
     let dbg_before: Vec<u64> = if cfg!(miri) { vec![] } else { w.searchers.iter().map(|s| s.debug_hash()).collect() };
-    let pl = plans(w, nthreads, nops, seed);
+    // Phase 1 plans: every thread its own random sequence. Phase 2 plans
+    // ("hammer"): all threads run the *same* sequence, each operation repeated
+    // many times in a row, so that hidden state touched by one operation on
+    // one searcher is hit by all threads at the same moment.
+    let mut pl = plans(w, nthreads, nops, seed);
+    {
+        let mut rng = Rng::new(seed).fork(0x4A33);
+        let bursts = (nops / 40).max(2);
+        let reps = if cfg!(miri) { 2 } else { 40 };
+        let mut common: Vec<(usize, Op, usize)> = vec![];
+        for _ in 0..bursts {
+            let key = (rng.below(w.searchers.len()), *rng.pick(&Op::ALL), rng.below(w.inputs.len()));
+            // short inputs make the calls short and the contention window dense
+            let key = if w.inputs[key.2].len() > 400 { (key.0, key.1, (0..w.inputs.len()).find(|&i| w.inputs[i].len() <= 400 && w.inputs[i].len() > 8).unwrap_or(key.2)) } else { key };
+            for _ in 0..reps {
+                common.push(key);
+            }
+        }
+        for p in pl.iter_mut() {
+            p.extend(common.iter().copied());
+        }
+    }
     let keys: Vec<(usize, Op, usize)> = pl.iter().flat_map(|p| p.iter().copied()).collect();
     let before = sequential_table(w, &keys, &mut |si, op, ii| announce("sequential-before", si, op, ii));
     rep.evals(before.len() as u64);
